@@ -73,15 +73,18 @@ func printSels(sels []Sel) string {
 				b.WriteString("[*]")
 			}
 		case "slice":
-			part := func(p *int) string {
-				if p == nil {
+			part := func(i int) string {
+				if s.SE[i] != nil {
+					return "(" + printExpr(s.SE[i], nil) + ")"
+				}
+				if s.S[i] == nil {
 					return ""
 				}
-				return strconv.Itoa(*p)
+				return strconv.Itoa(*s.S[i])
 			}
-			t := part(s.S[0]) + ":" + part(s.S[1])
-			if s.S[2] != nil || s.Quote == 1 {
-				t += ":" + part(s.S[2])
+			t := part(0) + ":" + part(1)
+			if s.S[2] != nil || s.SE[2] != nil || s.Quote == 1 {
+				t += ":" + part(2)
 			}
 			b.WriteString("[" + t + "]")
 		case "union":
@@ -89,6 +92,8 @@ func printSels(sels []Sel) string {
 			for _, m := range s.Union {
 				if m.Kind == "index" {
 					ms = append(ms, strconv.Itoa(m.Index))
+				} else if m.Kind == "iexpr" {
+					ms = append(ms, "("+printExpr(m.Expr, nil)+")")
 				} else {
 					ms = append(ms, string(m.Quote)+escapeQuoted(m.Name, m.Quote)+string(m.Quote))
 				}
@@ -240,6 +245,9 @@ func (g *QGen) selector(depth int) Sel {
 					v = 2
 				}
 				s.S[i] = ip(v)
+			} else if r.Chance(12) {
+				s.SE[i] = g.indexExpr()
+				g.Stats["sel.slice.expr-bound"]++
 			}
 		}
 		return s
@@ -248,7 +256,10 @@ func (g *QGen) selector(depth int) Sel {
 		s := Sel{Kind: "union", Quote: byte(r.Intn(2))}
 		n := 2 + r.Intn(2)
 		for i := 0; i < n; i++ {
-			if r.Bool() {
+			if r.Chance(12) {
+				s.Union = append(s.Union, Sel{Kind: "iexpr", Expr: g.indexExpr()})
+				g.Stats["sel.union.expr-member"]++
+			} else if r.Bool() {
 				s.Union = append(s.Union, Sel{Kind: "index", Index: r.Intn(6) - 2})
 			} else {
 				m := g.nameSel()
@@ -257,6 +268,11 @@ func (g *QGen) selector(depth int) Sel {
 				}
 				s.Union = append(s.Union, m)
 			}
+		}
+		// a bracket that begins with "(" and ends with ")" is read as ONE script expression (the implementation's grammar; DESIGN.md
+		// C07), so a union never starts and ends with a parenthesised member at once
+		if len(s.Union) > 0 && s.Union[0].Kind == "iexpr" && s.Union[len(s.Union)-1].Kind == "iexpr" {
+			s.Union[0] = Sel{Kind: "index", Index: r.Intn(6) - 2}
 		}
 		return s
 	case k < 18 && depth < 2:
@@ -410,6 +426,33 @@ func (g *QGen) expr(depth int, boolish bool) *Expr {
 		fn := r.Pick(fnNames)
 		g.Stats["fn."+fn]++
 		return &Expr{Kind: "call", Name: randCase(r, fn), L: g.expr(depth+1, false)}
+	}
+}
+
+// indexExpr: a parenthesised index expression for slice bounds and union members: mostly integers computed from the array, now
+// and then something that is no integer
+func (g *QGen) indexExpr() *Expr {
+	r := g.r
+	num := func(x string) *Expr { return &Expr{Kind: "num", Num: x} }
+	length := &Expr{Kind: "path", Path: []Sel{{Kind: "current"}, {Kind: "name", Name: "length"}}}
+	switch r.Intn(8) {
+	case 0:
+		return length
+	case 1:
+		lengthFn := &Expr{Kind: "call", Name: "length", L: &Expr{Kind: "path", Path: []Sel{{Kind: "current"}}}}
+		return &Expr{Kind: "bin", Name: "-", L: lengthFn, R: num(strconv.Itoa(1 + r.Intn(2)))}
+	case 2:
+		return &Expr{Kind: "bin", Name: r.Pick([]string{"+", "-", "*"}), L: num(strconv.Itoa(r.Intn(3))), R: num(strconv.Itoa(r.Intn(3)))}
+	case 3:
+		return &Expr{Kind: "bin", Name: "-", L: num("0"), R: num(strconv.Itoa(1 + r.Intn(3)))}
+	case 4:
+		return &Expr{Kind: "bin", Name: "/", L: num("1"), R: num("2")}
+	case 5:
+		return &Expr{Kind: "path", Path: []Sel{{Kind: "current"}, {Kind: "index", Index: 0}}}
+	case 6:
+		return &Expr{Kind: "str", Str: "a", Q: '\''}
+	default:
+		return num(strconv.Itoa(r.Intn(5) - 2))
 	}
 }
 
